@@ -15,6 +15,7 @@ ASSUMPTIONS = ["numeric equality of dense and sparse data on concrete expression
 def run(ctx):
     nc, ns = pepsolve.r_drain(ctx)
     pepsolve.r_obj(ctx)
+    pepsolve.r_fresh_declarations(ctx)
     wrappers.r_sense(ctx)
     wrappers.r_cmp(ctx)
     translate.r_keykinds(ctx)
